@@ -73,33 +73,40 @@ def leafEvents (P : Params) (levels : List Nat) (p : List Nat) : List Nat → Li
     if nrb = 0 then leafEvents P levels p axes
     else (.rem, .lsb32 nrb (p.getD a 0)) :: leafEvents P levels p axes
 
+/-- the calls on `half_encoder_` and `numbers_encoder_` for halves of `first` and `second`
+    points -/
+def splitEvents (n first second : Nat) : List Ev :=
+  let left := decide (first < second)
+  -- `num_remaining_points / 2 - first_half` resp. `- second_half`: the smaller half is at most
+  -- `n / 2`, no `uint32_t` wrap
+  (if first ≠ second then [(Which.half, BitOp.bit left)] else []) ++
+    [(.num, .lsb32 (Nat.log2 n) (n / 2 - (if left then first else second)))]
+
+/-- the split part of the loop body: `std::partition`, the two encoder calls, the pushes -/
+def encSplit (part : Partition) (P : Params) (fr : EFrame) (axis : Nat) (evA : List Ev) :
+    TreeStack.Step EFrame Ev Unit :=
+  let level := fr.levels.getD axis 0
+  let modifier := 2 ^ (P.bitLength - level - 1)
+  let base2 := fr.base.set axis ((fr.base.getD axis 0 + modifier) % 2^32)
+  let lr := part (fun p => p.getD axis 0 < base2.getD axis 0) fr.pts
+  let levels2 := fr.levels.set axis (level + 1)
+  .split (evA ++ splitEvents fr.pts.length lr.1.length lr.2.length)
+    (if lr.1.isEmpty then none else some ⟨lr.1, axis, fr.base, levels2⟩)
+    (if lr.2.isEmpty then none else some ⟨lr.2, axis, base2, levels2⟩) ()
+
+/-- the loop body once the axis is known -/
+def encNodeAt (part : Partition) (P : Params) (fr : EFrame) (axis : Nat) (evA : List Ev) :
+    TreeStack.Step EFrame Ev Unit :=
+  if P.bitLength - fr.levels.getD axis 0 = 0 then .leaf evA ()
+  else if fr.pts.length ≤ 2 then
+    .leaf (evA ++ fr.pts.flatMap fun p => leafEvents P fr.levels p (axesFrom axis P.dim P.dim)) ()
+  else encSplit part P fr axis evA
+
 /-- body of the `while (!status_stack.empty())` loop of `EncodeInternal` (it cannot fail) -/
 def encNode (part : Partition) (P : Params) (fr : EFrame) (_ : Unit) :
     Option (TreeStack.Step EFrame Ev Unit) :=
   let ax := encAxis P fr.pts fr.base fr.levels fr.lastAxis
-  let axis := ax.1
-  let level := fr.levels.getD axis 0
-  let n := fr.pts.length
-  if P.bitLength - level = 0 then some (.leaf ax.2 ())
-  else if n ≤ 2 then
-    let axes := axesFrom axis P.dim P.dim
-    some (.leaf (ax.2 ++ fr.pts.flatMap fun p => leafEvents P fr.levels p axes) ())
-  else
-    let nrb := P.bitLength - level
-    let modifier := 2 ^ (nrb - 1)
-    let base2 := fr.base.set axis ((fr.base.getD axis 0 + modifier) % 2^32)
-    let lr := part (fun p => p.getD axis 0 < base2.getD axis 0) fr.pts
-    let first := lr.1.length
-    let second := lr.2.length
-    let left := decide (first < second)
-    let evH : List Ev := if first ≠ second then [(.half, .bit left)] else []
-    -- `num_remaining_points / 2 - first_half` resp. `- second_half`: the smaller half is at most
-    -- `n / 2`, no `uint32_t` wrap
-    let evN : List Ev := [(.num, .lsb32 (Nat.log2 n) (n / 2 - (if left then first else second)))]
-    let levels2 := fr.levels.set axis (level + 1)
-    some (.split (ax.2 ++ (evH ++ evN))
-            (if lr.1.isEmpty then none else some ⟨lr.1, axis, fr.base, levels2⟩)
-            (if lr.2.isEmpty then none else some ⟨lr.2, axis, base2, levels2⟩) ())
+  some (encNodeAt part P fr ax.1 ax.2)
 
 /-- iteration budget, as for the decoder -/
 def encFuel (P : Params) (n : Nat) : Nat := n * (P.bitLength * P.dim + 1) + 1
